@@ -24,8 +24,11 @@ F64 = z3.Float64()
 RM = z3.RNE()
 
 
-def fpval(x):
-    return z3.FPVal(float(x), F64)
+F32 = z3.Float32()
+
+
+def fpval(x, sort=None):
+    return z3.FPVal(float(x), F64 if sort is None else sort)
 
 
 def is_integral(x, lo, hi):
@@ -38,9 +41,10 @@ class _Poison:
 
 
 def fp_spacing(x):
-    """numpy.spacing(x) for finite x: distance from |x| to the next representable binary64 away from zero (sign of x)."""
+    """numpy.spacing(x) for finite x: distance from |x| to the next representable value away from zero (sign of x)."""
     ax = z3.fpAbs(x)
-    nxt = z3.fpBVToFP(z3.fpToIEEEBV(ax) + z3.BitVecVal(1, 64), F64)
+    srt = x.sort()
+    nxt = z3.fpBVToFP(z3.fpToIEEEBV(ax) + z3.BitVecVal(1, srt.ebits() + srt.sbits()), srt)
     d = z3.fpSub(RM, nxt, ax)  # exact
     return z3.If(z3.fpIsNegative(x), z3.fpNeg(d), d)
 
@@ -52,10 +56,16 @@ class FloatSlice:
     fresh one); names given as ``inputs`` stay free symbols.  ``exprs[target]`` is the value at the end; a poisoned or untranslatable
     target raises EngineGap."""
 
-    def __init__(self, fn, inputs, targets, consts=None):
+    def __init__(self, fn, inputs, targets, consts=None, sort=None, subs=None):
+        """sort: the floating-point format every value is computed in (default binary64; Float32 for torch.float32 tensor arithmetic);
+        subs: {source text of a sub-expression (as ast.unparse prints it) -> term}, e.g. tensor subscripts the caller supplies;
+        the target "<return>" is the function's (last) return expression.  Tuples / lists / torch.stack / torch.tensor build nested tuples,
+        arithmetic on them is element-wise with scalar broadcasting."""
         self.fn = fn
         self.inputs = dict(inputs)
         self.consts = dict(consts or {})
+        self.sort = F64 if sort is None else sort
+        self.subs = dict(subs or {})
         src = textwrap.dedent(inspect.getsource(fn))
         self.tree = ast.parse(src).body[0]
         self.env = {}
@@ -154,6 +164,12 @@ class FloatSlice:
             elif isinstance(st, (ast.For, ast.While)):
                 self._poison(self._assigned([st]), f"assigned inside the loop at line {st.lineno} before its definition there")
                 self._block(st.body)
+            elif isinstance(st, ast.Return) and st.value is not None:
+                try:
+                    self.env["<return>"] = self._expr(st.value)
+                    self.order.append(("<return>", st.value))
+                except EngineGap as e:
+                    self.env["<return>"] = _Poison(str(e))
             elif isinstance(st, ast.With):
                 self._block(st.body)
             elif isinstance(st, ast.Try):
@@ -190,55 +206,88 @@ class FloatSlice:
             return z3.Not(self._cond(node.operand))
         if isinstance(node, (ast.Name, ast.Constant, ast.BinOp)):
             v = self._expr(node)  # truthiness of a number
-            return z3.Not(z3.fpEQ(v, fpval(0.0)))
+            return z3.Not(z3.fpEQ(v, self._fp(0.0)))
         raise EngineGap(f"float slice: condition {ast.dump(node)[:80]} not supported")
 
     def _call_name(self, f):
         if isinstance(f, ast.Name):
             return f.id
-        if isinstance(f, ast.Attribute) and isinstance(f.value, ast.Name) and f.value.id in ("np", "numpy", "math"):
+        if isinstance(f, ast.Attribute) and isinstance(f.value, ast.Name) and f.value.id in ("np", "numpy", "math", "torch"):
             return "np." + f.attr
         return None
 
+    def _fp(self, x):
+        return z3.FPVal(float(x), self.sort)
+
+    def _lift(self, f, *xs):
+        """apply f element-wise over nested tuples (scalars broadcast)"""
+        if any(isinstance(x, tuple) for x in xs):
+            n = max(len(x) for x in xs if isinstance(x, tuple))
+            if any(isinstance(x, tuple) and len(x) != n for x in xs):
+                raise EngineGap("float slice: element-wise operation on tuples of different lengths")
+            return tuple(self._lift(f, *[(x[i] if isinstance(x, tuple) else x) for x in xs]) for i in range(n))
+        return f(*xs)
+
     def _expr(self, node):
+        if self.subs:
+            key = ast.unparse(node)
+            if key in self.subs:
+                return self.subs[key]
         if isinstance(node, ast.Constant) and isinstance(node.value, (int, float)) and not isinstance(node.value, bool):
-            return fpval(node.value)
+            return self._fp(node.value)
+        if isinstance(node, (ast.Tuple, ast.List)):
+            return tuple(self._expr(e) for e in node.elts)
+        if isinstance(node, ast.Subscript) and isinstance(node.slice, ast.Constant) and isinstance(node.slice.value, int):
+            v = self._expr(node.value)
+            if isinstance(v, tuple):
+                return v[node.slice.value]
+        if isinstance(node, ast.Call) and isinstance(node.func, ast.Attribute) and node.func.attr in ("to", "float", "double", "tolist", "clone", "detach", "cpu") \
+                and not (isinstance(node.func.value, ast.Name) and node.func.value.id in ("np", "numpy", "torch", "math")):
+            return self._expr(node.func.value)  # dtype / device / container conversions do not change values in the sort of the slice
         if isinstance(node, ast.Name):
             return self._name(node.id)
         if isinstance(node, ast.UnaryOp) and isinstance(node.op, ast.USub):
-            return z3.fpNeg(self._expr(node.operand))
+            return self._lift(z3.fpNeg, self._expr(node.operand))
         if isinstance(node, ast.UnaryOp) and isinstance(node.op, ast.UAdd):
             return self._expr(node.operand)
         if isinstance(node, ast.BinOp):
             if isinstance(node.op, ast.Pow):
                 if isinstance(node.right, ast.Constant) and node.right.value in (1, 2):  # numpy evaluates x**2 as x*x
                     a = self._expr(node.left)
-                    return a if node.right.value == 1 else z3.fpMul(RM, a, a)
+                    return a if node.right.value == 1 else self._lift(lambda u: z3.fpMul(RM, u, u), a)
                 raise EngineGap("float slice: power other than **1 / **2 not supported")
             a, b = self._expr(node.left), self._expr(node.right)
             tab = {ast.Add: z3.fpAdd, ast.Sub: z3.fpSub, ast.Mult: z3.fpMul, ast.Div: z3.fpDiv}
             if type(node.op) in tab:
-                return tab[type(node.op)](RM, a, b)
+                return self._lift(lambda u, v: tab[type(node.op)](RM, u, v), a, b)
             raise EngineGap(f"float slice: operator {type(node.op).__name__} not supported")
         if isinstance(node, ast.IfExp):
             return z3.If(self._cond(node.test), self._expr(node.body), self._expr(node.orelse))
+        if isinstance(node, ast.Call) and self._call_name(node.func) == "np.stack" and len(node.args) == 1:
+            return self._expr(node.args[0])  # torch.stack([...], dim=...) of scalars / tuples: the nested tuple (the caller indexes it in that nesting order)
         if isinstance(node, ast.Call) and not node.keywords:
             nm = self._call_name(node.func)
             args = node.args
-            if nm in ("float", "np.float64", "np.asarray", "np.array") and len(args) == 1:
+            if nm in ("float", "np.float64", "np.asarray", "np.array", "tuple", "list", "np.Tensor", "np.tensor", "np.as_tensor") and len(args) == 1:
                 return self._expr(args[0])
+            if nm == "np.round" and len(args) == 1:
+                return self._lift(lambda u: z3.fpRoundToIntegral(z3.RNE(), u), self._expr(args[0]))
+            if nm == "int" and len(args) == 1:  # int(x): truncation toward zero (kept in the slice's float format; exact for the magnitudes in use)
+                return self._lift(lambda u: z3.fpRoundToIntegral(z3.RTZ(), u), self._expr(args[0]))
+            if nm in ("np.floor", "np.ceil") and len(args) == 1:
+                return self._lift(lambda u: z3.fpRoundToIntegral(z3.RTN() if nm == "np.floor" else z3.RTP(), u), self._expr(args[0]))
             if nm == "np.reshape" and len(args) == 2:  # element-wise model: shape changes do not touch values
                 return self._expr(args[0])
             if nm == "np.full" and len(args) == 2:
                 return self._expr(args[1])
             if nm == "np.spacing" and len(args) == 1:
                 if isinstance(args[0], ast.Constant) and args[0].value in (1, 1.0):
-                    return fpval(2.0 ** -52)
+                    return self._fp(2.0 ** -52)
                 return fp_spacing(self._expr(args[0]))
             if nm in ("np.sqrt", "math.sqrt") and len(args) == 1:
-                return z3.fpSqrt(RM, self._expr(args[0]))
+                return self._lift(lambda u: z3.fpSqrt(RM, u), self._expr(args[0]))
             if nm in ("np.abs", "np.absolute", "abs") and len(args) == 1:
-                return z3.fpAbs(self._expr(args[0]))
+                return self._lift(z3.fpAbs, self._expr(args[0]))
             two = {"np.divide": z3.fpDiv, "np.true_divide": z3.fpDiv, "np.multiply": z3.fpMul, "np.add": z3.fpAdd, "np.subtract": z3.fpSub}
             if nm in two and len(args) == 2:
                 return two[nm](RM, self._expr(args[0]), self._expr(args[1]))
@@ -270,11 +319,9 @@ class FloatSlice:
 
 
 def fp_model_value(model, var):
-    """binary64 model value of an FP variable as a Python float"""
+    """model value of an FP variable (binary32 or binary64) as a Python float"""
     v = model.eval(var, model_completion=True)
     if z3.is_fp(v):
-        if z3.is_fprm_value(v):
-            raise ValueError("rounding mode")
         try:
             if v.isNaN():
                 return float("nan")
@@ -282,10 +329,13 @@ def fp_model_value(model, var):
                 return float("-inf") if v.isNegative() else float("inf")
         except Exception:  # noqa
             pass
-        s = v.sign()
+        eb, sb = v.sort().ebits(), v.sort().sbits()
+        s = 1 if v.sign() else 0
         sig = v.significand_as_long()
         e = v.exponent_as_long(biased=True)
-        bits = ((1 if s else 0) << 63) | (e << 52) | sig
         import struct
-        return struct.unpack("<d", struct.pack("<Q", bits))[0]
+        if (eb, sb) == (11, 53):
+            return struct.unpack("<d", struct.pack("<Q", (s << 63) | (e << 52) | sig))[0]
+        if (eb, sb) == (8, 24):
+            return struct.unpack("<f", struct.pack("<I", (s << 31) | (e << 23) | sig))[0]
     raise ValueError(f"not an FP value: {v}")
